@@ -19,8 +19,9 @@ import RzilVerif.Lemmas.WfClosed
    hypothesis (sufficient: user name does not end in a digit) and fails without it (witness).
 6. What `wfBodyProblems ctx b = []` buys (end of the file, lemmas in `Lemmas/WfClosed.lean`):
    `wf_positional` (declared once and before use, one final `return`), `wf_layout` (`namesDistinct`, `noForwardRef`
-   of C16), `wf_denoteIL_closed` (the denotation mentions no inlined name).  The last two need `constFree`
-   (no declared name is a plugin constant); `exConst` shows they fail without it.
+   of C16), `wf_denoteIL_closed` (the denotation mentions no inlined name).  The last two are stated with the
+   side condition `constFree` (no declared name is a plugin constant); the checker now reports such a declaration
+   (`wf_constFree`), so `wf_layout'` / `wf_denoteIL_closed'` need no side condition; `exConst` is rejected.
 
 The token-level statements put no lexical conditions on the strings inside tokens (identifier
 shape, no `"` inside a string literal, …): the character-level tokenizer is outside this file.
@@ -759,6 +760,26 @@ theorem wf_denoteIL_closed (ctx : BodyCtx) (b : Body) (h : wfBodyProblems ctx b 
       rw [eraseDup_mentions x _ hm] at this
       cases this
 
+/-- The checker reports a declaration whose name is a plugin constant, so an empty problem list gives the
+    side condition of `wf_layout` / `wf_denoteIL_closed`. -/
+theorem wf_constFree (ctx : BodyCtx) (b : Body) (h : wfBodyProblems ctx b = []) : constFree b.items = true := by
+  rw [wfBodyProblems_eq] at h
+  simp only at h
+  rw [← constFree_noComments]
+  split at h
+  · exact constFree_of_fold ctx _ _ _ h
+  · simp at h
+
+/-- `wf_layout` without side condition. -/
+theorem wf_layout' (ctx : BodyCtx) (b : Body) (h : wfBodyProblems ctx b = []) :
+    namesDistinct b.items = true ∧ noForwardRef b.items = true :=
+  wf_layout ctx b h (wf_constFree ctx b h)
+
+/-- `wf_denoteIL_closed` without side condition. -/
+theorem wf_denoteIL_closed' (ctx : BodyCtx) (b : Body) (h : wfBodyProblems ctx b = [])
+    (t : Term) (hd : denoteIL b = some t) : ∀ x ∈ ilNames b.items, t.mentions x = false :=
+  wf_denoteIL_closed ctx b h (wf_constFree ctx b h) t hd
+
 /-! ### Kernel-checked examples -/
 
 def exCtx : BodyCtx := { given := ["bundle", "hi", "pkt"], callees := [] }
@@ -788,15 +809,29 @@ example : wfBodyProblems exCtx exFwd = ["identifier b used in the initialiser of
 example : noForwardRef exFwd.items = false := by decide +kernel
 example : (denoteIL exFwd).map (fun t => t.mentions "b") = some true := by decide +kernel
 
-/-- `constFree` is needed: the checker accepts a use of the plugin constant `true` before a declaration of that
-    name, so the body is "well-formed", yet it has a forward reference and its denotation is not closed. -/
+/-- Formerly the witness that `constFree` was a necessary side condition (the checker accepted a use of the plugin
+    constant `true` before a declaration of that name).  The checker now REJECTS the declaration of `true`; the body
+    still has a forward reference and a denotation that is not closed. -/
 def exConst : Body := { header := none, items :=
   [.decl "RzILOpPure *" "a" (.id "true"),
    .decl "RzILOpPure *" "true" (.id "a"),
    .ret (.app "SETL" [.str "y", .id "true"])] }
 
-example : wfBodyProblems exCtx exConst = [] ∧ constFree exConst.items = false ∧
+example : wfBodyProblems exCtx exConst = ["true is a plugin constant"] ∧ constFree exConst.items = false ∧
     noForwardRef exConst.items = false ∧
     (denoteIL exConst).map (fun t => t.mentions "true") = some true := by decide +kernel
+
+/-- Ordinary compiler-generated names are not plugin constants (neither are the parameters `pkt`, `hi`, `bundle`,
+    which are never declared anyway). -/
+example : ["op_ADD_4", "Rs", "Rd", "h_tmp0", "seq_then_6", "branch_7", "cond_5", "u", "s", "pkt", "hi", "bundle",
+    "Rs_op", "ms", "const_pos1", "hex_op"].map isPluginConst =
+    [false, false, false, false, false, false, false, false, false, false, false, false, false, false, false,
+     false] := by decide +kernel
+
+/-- Side-condition-free versions on the good example. -/
+example : namesDistinct exGood.items = true ∧ noForwardRef exGood.items = true :=
+  wf_layout' exCtx exGood (by decide +kernel)
+example : ∀ x ∈ ["a", "e"], (Term.app "SETL" [.str "y", .app "VARL" [.str "x"]]).mentions x = false :=
+  wf_denoteIL_closed' exCtx exGood (by decide +kernel) _ exGood_denote
 
 end Rzil
